@@ -161,6 +161,15 @@ impl<const M: usize> World<M> {
     }
 
     /// Address relative to the arena's slab (worker independent).
+    /// Position of `addr` as far as the crate can see it: offset inside the block it lies in plus the low bits of
+    /// that block's base (used instead of `rel` where the allocator may re-issue addresses of freed blocks).
+    pub fn rel_canon(&self, addr: usize) -> i64 {
+        match self.e().live_blocks(self.arena).find(|b| addr >= b.base && addr <= b.base + b.size) {
+            Some(b) => (((b.base & 8191) as i64) << 32) | (addr - b.base) as i64,
+            None => -1,
+        }
+    }
+
     pub fn rel(&self, addr: usize) -> i64 {
         let base = self.e().slabs[self.arena].base;
         if addr >= base && addr < base + self.e().slabs[self.arena].size {
